@@ -54,7 +54,7 @@ def nonBody : Str → Bool
   | c :: _ => !bodyChar c
   | [] => false
 
-theorem startsWith_false_of_head {s p : Str} (hs : s.head?.all bodyChar = true) (hp : nonBody p = true) :
+theorem startsWith_false_of_bodyHead {s p : Str} (hs : s.head?.all bodyChar = true) (hp : nonBody p = true) :
     startsWith s p = false := by
   cases p with
   | nil => simp [nonBody] at hp
@@ -67,13 +67,13 @@ theorem startsWith_false_of_head {s p : Str} (hs : s.head?.all bodyChar = true) 
       simp only [startsWith, List.isPrefixOf, Bool.and_eq_false_imp, beq_iff_eq]
       intro h; subst h; rw [hp] at hs; cases hs
 
-theorem startsWithAny_false_of_head {s : Str} {ps : List Str} (hs : s.head?.all bodyChar = true)
+theorem startsWithAny_false_of_bodyHead {s : Str} {ps : List Str} (hs : s.head?.all bodyChar = true)
     (hp : ps.all nonBody = true) : startsWithAny s ps = false := by
   unfold startsWithAny
   rw [List.any_eq_false]
   intro p hmem
   have := List.all_eq_true.mp hp p hmem
-  simp [startsWith_false_of_head hs this]
+  simp [startsWith_false_of_bodyHead hs this]
 
 theorem CO.pass {l : L} {m : M} (inv : COInv m) : CO l m m false :=
   ⟨inv, rfl, fun h => (by cases h), fun _ => ⟨rfl, rfl⟩, fun h => (by cases h)⟩
@@ -337,7 +337,7 @@ theorem handleDiffHeaderDiff_co {cfg : Cfg} {m m' : M} {l : L} {b : Bool} (nf : 
     have hp0 : pend m = [] := by
       rcases pend_cases hp with h | ⟨_, h⟩
       · exact h
-      · simp [startsWith_false_of_head h.2 nonBody_diffLine] at ht
+      · simp [startsWith_false_of_bodyHead h.2 nonBody_diffLine] at ht
     have hmi : ({ flushMP m with st := diffLineState l } : M).modeInfo = [] := (flushMP_modeInfo m).trans inv.mode
     rw [pendingDiffName_co hco hmi] at e
     rw [shouldSkipLine_co _ hco] at e
@@ -373,7 +373,7 @@ theorem handleHunkHeader_co {cfg : Cfg} {m m' : M} {l : L} {b : Bool} (inv : COI
     have hp0 : pend m = [] := by
       rcases pend_cases hp with h | ⟨_, h⟩
       · exact h
-      · rw [startsWith_false_of_head h.2 nonBody_hunkHeader] at hsw; cases hsw
+      · rw [startsWith_false_of_bodyHead h.2 nonBody_hunkHeader] at hsw; cases hsw
     split at e
     · cases e; exact CO.pass inv
     · cases e
@@ -384,9 +384,9 @@ theorem handleHunkHeader_co {cfg : Cfg} {m m' : M} {l : L} {b : Bool} (inv : COI
       · have : acct m = srcs m := by simp [acct, hp0]
         rw [this]; rfl
 
-theorem stripPrefix_none_of_head {s p : Str} (hs : s.head?.all bodyChar = true) (hp : nonBody p = true) :
+theorem stripPrefix_none_of_bodyHead {s p : Str} (hs : s.head?.all bodyChar = true) (hp : nonBody p = true) :
     stripPrefix s p = none := by
-  unfold stripPrefix; simp [startsWith_false_of_head hs hp]
+  unfold stripPrefix; simp [startsWith_false_of_bodyHead hs hp]
 
 theorem handleModeLine_co {cfg : Cfg} {m m' : M} {l : L} {b : Bool} (nf : CONormal cfg) (inv : COInv m)
     (hp : pend m = [] ∨ HunkBody l) (e : handleModeLine cfg m l = .ok (b, m')) : CO l m m' b := by
@@ -402,7 +402,7 @@ theorem handleModeLine_co {cfg : Cfg} {m m' : M} {l : L} {b : Bool} (nf : CONorm
         exact CO.passUpd ⟨inv.mode, inv.source, fun _ _ _ _ _ h => by cases h⟩ rfl rfl hp0 rfl
       · cases e; exact CO.pass inv
   · unfold handleModeLine at e
-    rw [stripPrefix_none_of_head hb.2 nonBody_oldMode, stripPrefix_none_of_head hb.2 nonBody_newMode] at e
+    rw [stripPrefix_none_of_bodyHead hb.2 nonBody_oldMode, stripPrefix_none_of_bodyHead hb.2 nonBody_newMode] at e
     cases e; exact CO.pass inv
 
 /-- `handle_additional_cases` in color-only mode, nothing pending, target state not a hunk header -/
@@ -442,7 +442,7 @@ theorem handleMisc_co {cfg : Cfg} {m m' : M} {l : L} {b : Bool} (nf : CONormal c
     have hp0 : pend m = [] := by
       rcases pend_cases hp with h | ⟨_, h⟩
       · exact h
-      · simp [startsWith_false_of_head h.2 nonBody_binaryFiles] at ht
+      · simp [startsWith_false_of_bodyHead h.2 nonBody_binaryFiles] at ht
     refine handleAdditionalCases_co nf inv hp0 ?_ e
     split
     · rename_i hd
@@ -458,7 +458,7 @@ theorem handleSubmoduleLog_co {cfg : Cfg} {m m' : M} {l : L} {b : Bool} (nf : CO
     have hp0 : pend m = [] := by
       rcases pend_cases hp with h | ⟨_, h⟩
       · exact h
-      · simp [startsWith_false_of_head h.2 nonBody_submoduleLog] at ht
+      · simp [startsWith_false_of_bodyHead h.2 nonBody_submoduleLog] at ht
     exact handleAdditionalCases_co nf inv hp0 rfl e
 
 theorem handleSubmoduleShort_co {cfg : Cfg} {m m' : M} {l : L} {b : Bool} (nf : CONormal cfg) (inv : COInv m)
